@@ -11,3 +11,6 @@ func Seed(v int32) int32 { return v }
 
 // Listeners returns the listeners a daemon should serve on.
 func Listeners(l []net.Listener) []net.Listener { return l }
+
+// ReadWindow returns the sender's file read window size to use.
+func ReadWindow(blockLength, v int32) int32 { return v }
